@@ -1,14 +1,19 @@
 (* C09 - Pushes compose: any split into several invocations equals one push.
    Proved on the L3 model: a push whose range is already applied changes nothing (for every goal
    form); the apply loop composes in memory (running it over pre ++ rest = running it over pre and
-   continuing over rest).  PARTIAL: the step from "in memory" to "across invocations" - that saving the
-   overlay and loading it again in the next run gives the same in-memory state - is decided by the
+   continuing over rest).  Across invocations (ViewSim.v): what the apply loop computes depends on the file
+   system and the overlay only through what each name currently IS - its lines, whether it is there, the mode it
+   would be saved with; so an invocation that starts from a tree which reads as the overlay the previous one
+   ended with stops at the same patch with the same reject files and ends in a similar state
+   (C09_fresh_invocation_equals_continuation).  A saved file does read back as its overlay entry
+   (C09_saved_file_reloads).  PARTIAL: that the WHOLE saved tree reads as the overlay (directories, several
+   files, .pc) is C05_saved_tree_is_start_plus_overlay at the level of file contents plus the
    runs: every way of cutting a generated series into consecutive pushes (counts, names, -a, thread
    counts 1/2/4) is run on the binary in one directory and compared with the single push, byte for
    byte, including rejects and .pc; idempotence and "fails again the same way" are run too. *)
 From Coq Require Import List ZArith NArith Bool String.
 Import ListNotations.
-From RQ Require Import Base Apply Parser Quilt QuiltProofs Lines Reload.
+From RQ Require Import Base Apply Parser Quilt QuiltProofs Lines Reload ViewSim.
 Local Notation length := List.length (only parsing).
 
 Theorem C09_already_applied_changes_nothing :
@@ -77,3 +82,49 @@ Example C09_refuted_no_newline_midfile :
   snd c09_one_push = ROk true /\ c09_f c09_one_push = Some (b ("AB" ++ nl)%string) /\
   snd c09_two_pushes = ROk false /\ c09_f c09_two_pushes = Some (b ("Ab" ++ nl)%string).
 Proof. vm_compute. auto. Qed.
+
+(* ---------- across invocations ---------- *)
+
+(* [wsim dm fs1 ov1 fs2 ov2]: every (canonical) name is the same thing in both worlds - same lines, same
+   existence, same effective mode - whether that comes from the overlay or from the disk.  If the tree fs2 reads
+   as (fs, ov) - the overlay [ov] of the patches applied so far having been saved - then pushing the remaining
+   series from scratch on fs2 and continuing in memory on (fs, ov) stop at the same patch, with the same rejects,
+   in similar states. *)
+Theorem C09_fresh_invocation_equals_continuation :
+  forall dm cfg db fs ov applied fs2 lo,
+    wsim dm fs ov fs2 [] -> (forall s, In s applied -> (st_index s < lo)%nat) ->
+    forall series index, (lo <= index)%nat ->
+    fst (apply_series cfg db {| a_applied := applied; a_files := ov |} index series fs) = fs /\
+    fst (apply_series cfg db {| a_applied := []; a_files := [] |} index series fs2) = fs2 /\
+    ressim (sersim dm fs fs2 applied [])
+           (snd (apply_series cfg db {| a_applied := applied; a_files := ov |} index series fs))
+           (snd (apply_series cfg db {| a_applied := []; a_files := [] |} index series fs2)).
+Proof. exact continue_equals_fresh. Qed.
+Print Assumptions C09_fresh_invocation_equals_continuation.
+
+(* the general form: any two similar worlds, any stacks whose older parts lie below the patches pushed now *)
+Theorem C09_similar_worlds_same_push :
+  forall dm cfg db fs1 fs2 base1 base2 lo,
+    (forall s, In s base1 -> (st_index s < lo)%nat) -> (forall s, In s base2 -> (st_index s < lo)%nat) ->
+    forall series st1 st2 index, (lo <= index)%nat -> extsim dm fs1 fs2 base1 base2 st1 st2 ->
+    fst (apply_series cfg db st1 index series fs1) = fs1 /\ fst (apply_series cfg db st2 index series fs2) = fs2 /\
+    ressim (sersim dm fs1 fs2 base1 base2) (snd (apply_series cfg db st1 index series fs1))
+                                          (snd (apply_series cfg db st2 index series fs2)).
+Proof. exact apply_series_sim. Qed.
+Print Assumptions C09_similar_worlds_same_push.
+
+(* the hypothesis is met, e.g., by an overlay that only caches what is on disk, and by the saved tree when it
+   reads as the overlay, name by name *)
+Theorem C09_similar_when_tree_reads_as_overlay :
+  forall dm fs ov fs2,
+    (forall k m, canon k = k -> ov_get k ov = Some m ->
+       ressim (msim bytes (effm dm)) (ROk m) (look fs2 [] k) /\ ROk (negb (deleted m)) = present fs2 [] k) ->
+    (forall k, canon k = k -> ov_get k ov = None -> look fs2 [] k = look fs [] k /\ present fs2 [] k = present fs [] k) ->
+    wsim dm fs ov fs2 [].
+Proof. exact reload_wsim. Qed.
+Print Assumptions C09_similar_when_tree_reads_as_overlay.
+
+Theorem C09_cached_loads_are_invisible :
+  forall dm fs ov k m, ov_get k ov = None -> look fs ov k = ROk m -> wsim dm fs (ov_set k m ov) fs ov.
+Proof. exact wsim_cached. Qed.
+Print Assumptions C09_cached_loads_are_invisible.
